@@ -18,6 +18,10 @@
 (* replace the capacity bounds; profile steps do not count towards the     *)
 (* minimum runtime; while off the output is zero.                          *)
 (*                                                                         *)
+(* With a heat node (c.heat): the output is the virtual output p + h        *)
+(* (conversion factor 1), heat h <= p (maximum share 1), and srh / drh give *)
+(* bounds of the HEAT in the profile steps (same lengths as sr / dr).       *)
+(*                                                                         *)
 (* State: on, how long in that state (steps), ss = number of steps the     *)
 (* plant has been on since its last start, du = shutdown commitment:       *)
 (*   0 none, k > 0: k further profile steps follow, -1: profile finished,  *)
@@ -55,8 +59,13 @@ StepR(c, s, x, m) ==
                ELSE ""
       flag  == IF trans /\ ~m.start THEN "start_flag_missing" ELSE IF m.start /\ ~trans THEN "start_flag_spurious" ELSE ""
       b     == IF instart THEN c.sr[js + 1] ELSE IF indown THEN c.dr[dunow] ELSE <<c.lo, c.hi>>
-      outp  == IF ~m.on THEN (IF m.p = 0 THEN "" ELSE "off_output")
-               ELSE IF m.p < b[1] \/ m.p > b[2] THEN (IF instart THEN "start_profile" ELSE IF indown THEN "shutdown_profile" ELSE "cap")
+      bh    == IF instart THEN c.srh[js + 1] ELSE IF indown THEN c.drh[dunow] ELSE <<0, c.hi>>      \* bounds of the heat
+      v     == m.p + m.h                                                                           \* virtual output
+      outp  == IF ~m.on THEN (IF m.p = 0 /\ m.h = 0 THEN "" ELSE "off_output")
+               ELSE IF m.p < 0 \/ m.h < 0 THEN "negative_output"
+               ELSE IF v < b[1] \/ v > b[2] THEN (IF instart THEN "start_profile" ELSE IF indown THEN "shutdown_profile" ELSE "cap")
+               ELSE IF c.heat /\ (m.h < bh[1] \/ m.h > bh[2]) THEN (IF instart THEN "start_profile_heat" ELSE IF indown THEN "shutdown_profile_heat" ELSE "cap_heat")
+               ELSE IF c.heat /\ m.h > m.p THEN "heat_share"
                ELSE ""
       bads  == SelectSeq(<<auto, flag, outp>>, LAMBDA z : z # "")
   IN [bad |-> IF bads = <<>> THEN "" ELSE bads[1],
@@ -64,12 +73,14 @@ StepR(c, s, x, m) ==
                dur |-> IF m.on = x.on THEN (IF x.dur >= BIG THEN BIG ELSE x.dur + 1) ELSE 1,
                ss  |-> IF ~m.on THEN 0 ELSE js + 1,
                du  |-> IF ~m.on THEN 0 ELSE IF dunow > 1 THEN dunow - 1 ELSE IF dunow = 1 THEN -1 ELSE 0],
-      cost |-> c.price[s] * m.p + (IF m.start THEN c.startcost ELSE 0)]
+      cost |-> c.price[s] * (m.p + m.h) + (IF m.start THEN c.startcost ELSE 0)]
 
 Cand(lo, hi, q, w) == { z \in (lo - w)..(hi + w) : z = lo \/ z = hi \/ z % q = 0 \/ z = lo - w \/ z = hi + w }
 AllBounds(c) == { c.lo, c.hi } \cup { c.sr[j][k] : j \in 1..Rs(c), k \in 1..2 } \cup { c.dr[j][k] : j \in 1..Rd(c), k \in 1..2 }
-Moves(w) == { [on |-> o, start |-> sf, sdn |-> sd, p |-> p] : o \in BOOLEAN, sf \in BOOLEAN, sd \in BOOLEAN,
-              p \in { z \in 0..(cfg.hi + w) : z = 0 \/ z % cfg.q = 0 \/ \E y \in AllBounds(cfg) : z \in {y - w, y, y + w} } }
+HeatBounds(c) == IF c.heat THEN { c.srh[j][k] : j \in 1..Rs(c), k \in 1..2 } \cup { c.drh[j][k] : j \in 1..Rd(c), k \in 1..2 } ELSE {}
+Moves(w) == { [on |-> o, start |-> sf, sdn |-> sd, p |-> p, h |-> h] : o \in BOOLEAN, sf \in BOOLEAN, sd \in BOOLEAN,
+              p \in { z \in 0..(cfg.hi + w) : z = 0 \/ z % cfg.q = 0 \/ \E y \in AllBounds(cfg) : z \in {y - w, y, y + w} },
+              h \in (IF cfg.heat THEN { z \in 0..(cfg.hi + w) : z = 0 \/ z % cfg.q = 0 \/ \E y \in HeatBounds(cfg) : z \in {y - w, y, y + w} } ELSE {0}) }
 
 InitDu(c) == IF c.run0 = 0 THEN {0}
              ELSE {0} \cup { k \in 1..(Rd(c) - 1) : c.run0 >= c.minrun + Rs(c) + (Rd(c) - k) }
@@ -85,7 +96,7 @@ Step == /\ t <= cfg.T /\ fault = ""
              LET r == StepR(cfg, t, st, m) IN
              /\ (r.bad = "" /\ w = 0) \/ (w = 1 /\ r.bad \in Relax)
              /\ fault' = r.bad /\ st' = r.st /\ val' = val - r.cost
-             /\ hist' = Append(hist, [on |-> m.on, start |-> m.start, sdn |-> m.sdn, p |-> m.p])
+             /\ hist' = Append(hist, [on |-> m.on, start |-> m.start, sdn |-> m.sdn, p |-> m.p, h |-> m.h])
         /\ t' = t + 1 /\ UNCHANGED cfg
 Spec == Init /\ [][Step]_vars
 Complete == t = cfg.T + 1 /\ fault = ""
@@ -100,10 +111,11 @@ RunLongEnough == (fault = "") => \A e \in 1..(Len(hist) - 1) :
 \* the last Rd steps before a switch-off carry the shutdown profile, the first Rs steps after a start the start profile
 ProfilesFollowed == (fault = "") => \A e \in 1..Len(hist) : hist[e].on =>
                     LET k == OnRunEndingAt(e) IN
-                    /\ (e - k + Before(k) <= Rs(cfg)) => (hist[e].p >= cfg.sr[e - k + Before(k)][1] /\ hist[e].p <= cfg.sr[e - k + Before(k)][2])
+                    /\ (e - k + Before(k) <= Rs(cfg)) => (hist[e].p + hist[e].h >= cfg.sr[e - k + Before(k)][1] /\ hist[e].p + hist[e].h <= cfg.sr[e - k + Before(k)][2])
                     /\ \A j \in 1..Rd(cfg) : (e + j <= Len(hist) /\ (\A i \in 0..(j - 1) : hist[e + i].on) /\ ~hist[e + j].on)
-                                               => (hist[e].p >= cfg.dr[j][1] /\ hist[e].p <= cfg.dr[j][2])
-OffZero == (fault = "") => \A e \in 1..Len(hist) : (~hist[e].on => hist[e].p = 0)
+                                               => (hist[e].p + hist[e].h >= cfg.dr[j][1] /\ hist[e].p + hist[e].h <= cfg.dr[j][2])
+OffZero == (fault = "") => \A e \in 1..Len(hist) : (~hist[e].on => hist[e].p = 0 /\ hist[e].h = 0)
+HeatWithinShare == (fault = "") => \A e \in 1..Len(hist) : hist[e].h <= hist[e].p
 
 Emit == /\ (Complete \/ fault # "") => PrintT(<<"BEH", ToJson([cid |-> cfg.id, fault |-> fault, at |-> Len(hist), val |-> val, steps |-> hist])>>)
         /\ fault = ""
